@@ -245,6 +245,46 @@ func VH_Conservation() {
 			}
 		}
 		recs = append(recs, vRec{typ: t, data: d})
+	} else if shape == 2 {
+		// one record of each type the normalisation table knows, carrying every key that type's
+		// normalisations refer to (minus at most one), with plain-token or address-literal values
+		rts := make([]string, 0, len(recordTypeNorms))
+		for k := range recordTypeNorms {
+			rts = append(rts, k)
+		}
+		sort.Strings(rts)
+		name := rts[vChoose("rt", len(rts))]
+		t, err := auparse.GetAuditMessageType(name)
+		if err != nil {
+			vStop()
+			return
+		}
+		set := map[string]bool{"auid": true, "uid": true, "ses": true, "pid": true, "result": true, "exe": true, "x1": true}
+		for _, n := range recordTypeNorms[name] {
+			for _, ss := range []Strings{n.SubjectPrimaryFieldName, n.SubjectSecondaryFieldName, n.ObjectPrimaryFieldName, n.ObjectSecondaryFieldName, n.How, n.SourceIP, n.HasFields} {
+				for _, k := range ss.Values {
+					set[k] = true
+				}
+			}
+		}
+		keys := make([]string, 0, len(set))
+		for k := range set {
+			keys = append(keys, k)
+		}
+		sort.Strings(keys)
+		drop := vChoose("drop", len(keys)+1)
+		literal := vChoose("literal", 2) == 1
+		d := map[string]string{}
+		for i, k := range keys {
+			if i == drop {
+				continue
+			}
+			d[k] = val()
+			if literal && (k == "addr" || k == "laddr" || k == "hostname") {
+				d[k] = "10.0.0." + strconv.Itoa(uniq)
+			}
+		}
+		recs = append(recs, vRec{typ: t, data: d})
 	} else {
 		first := vChoose("first", 3) // 0: SYSCALL first, 1: another record first, 2: no SYSCALL at all
 		sysData := map[string]string{"syscall": []string{"open", "connect", "execve", "zzz"}[vChoose("sys", 4)], "result": val(), "ses": val(), "auid": val(), "uid": val(), "items": "2", "pid": val(), "exe": val(), "comm": val(), "subj_role": val()}
@@ -485,6 +525,7 @@ func vEventDigest(e *Event) string {
 
 func VH_Repeatable() {
 	vInstallTableImage()
+	vFreezeTables()
 	gi := vChoose("group", len(vGroups))
 	msgs := vParseGroup(vGroups[gi], "77")
 	vAssert(msgs != nil, "C15/group-does-not-parse")
@@ -584,5 +625,78 @@ func VH_ConcurrentResolve() {
 		if e != nil {
 			vAssert(vEventDigest(e)+"|N"+strconv.Itoa(len(e.User.Names))+e.Summary.Actor.Primary == digests[i], "C15/concurrent-result-differs-from-sequential")
 		}
+	}
+}
+
+// ---- C15: the shared normalisation tables stay as loaded --------------------------------------
+
+// vFreezeTables declares every string list of the normalisation tables immutable (up to its
+// capacity): events alias these lists, so a write is a change to events already handed out.
+func vFreezeTables() {
+	seen := map[*Normalization]bool{}
+	fr := func(n *Normalization) {
+		if n == nil || seen[n] {
+			return
+		}
+		seen[n] = true
+		for _, s := range []Strings{n.SubjectPrimaryFieldName, n.SubjectSecondaryFieldName, n.ObjectPrimaryFieldName, n.ObjectSecondaryFieldName,
+			n.How, n.RecordTypes, n.Syscalls, n.SourceIP, n.HasFields, n.ECS.Category, n.ECS.Type} {
+			vFreezeStrings("a normalisation table list", s.Values)
+		}
+	}
+	for _, n := range syscallNorms {
+		fr(n)
+	}
+	for _, ns := range recordTypeNorms {
+		for _, n := range ns {
+			fr(n)
+		}
+	}
+}
+
+func init() { vEntries["VH_TableIsolation"] = VH_TableIsolation }
+
+// VH_TableIsolation: for every record type the table knows, an event made of that record and a
+// SYSCALL record, then a second one with another syscall: the first event stays as returned, a
+// third coalesce of the first group's text gives the first result again, and the tables are not written.
+func VH_TableIsolation() {
+	vInstallTableImage()
+	vFreezeTables()
+	rts := make([]string, 0, len(recordTypeNorms))
+	for k := range recordTypeNorms {
+		rts = append(rts, k)
+	}
+	sort.Strings(rts)
+	name := rts[vChoose("rt", len(rts))]
+	t, err := auparse.GetAuditMessageType(name)
+	if err != nil {
+		vStop()
+		return
+	}
+	sysPairs := [][2]string{{"2", "85"}, {"85", "42"}, {"59", "105"}, {"42", "2"}}
+	pr := sysPairs[vChoose("syscalls", len(sysPairs))]
+	first := vChoose("order", 2)
+	mk := func(sysno, seq string) []*auparse.AuditMessage {
+		rec := strconv.Itoa(int(t)) + "|pid=1 uid=0 auid=1000 ses=5 msg='op=x acct=\"bob\" exe=\"/bin/x\" hostname=h addr=10.0.0.9 terminal=t res=success'"
+		sys := "1300|arch=c000003e syscall=" + sysno + " success=yes exit=0 a0=1 items=0 ppid=1 pid=2 auid=1000 uid=0 gid=0 ses=3 comm=\"x\" exe=\"/bin/x\" key=(null)"
+		if first == 0 {
+			return vParseGroup([]string{rec, sys}, seq)
+		}
+		return vParseGroup([]string{sys, rec}, seq)
+	}
+	a := mk(pr[0], "81")
+	vAssert(a != nil, "C15/group-does-not-parse")
+	if a == nil {
+		return
+	}
+	e1, _ := CoalesceMessages(a)
+	d1 := vEventDigest(e1)
+	if b := mk(pr[1], "82"); b != nil {
+		CoalesceMessages(b)
+	}
+	vAssert(vEventDigest(e1) == d1, "C15/earlier-event-altered-by-a-later-coalesce")
+	if a2 := mk(pr[0], "81"); a2 != nil {
+		e3, _ := CoalesceMessages(a2)
+		vAssert(vEventDigest(e3) == d1, "C15/outcome-for-the-same-messages-changed-by-other-events")
 	}
 }
